@@ -138,6 +138,11 @@ struct XlsSpec {
     /// BoundSheet8 records stay in tab order, each pointing at its own substream); `None` = tab order
     #[serde(default, skip_serializing_if = "Option::is_none")]
     order: Option<Vec<usize>>,
+    /// dual-format container: besides `Workbook` a `Book` stream (the BIFF5 copy Excel 97 writes in "5.0/95 &
+    /// 97" files: same sheets and cells, no MERGEDCELLS records), 1 = before, 2 = after `Workbook` in directory
+    /// order; the regions must come from `Workbook`
+    #[serde(default)]
+    dual: u8,
 }
 
 #[derive(Clone, Debug)]
@@ -1292,7 +1297,26 @@ fn eval_xls(spec: &XlsSpec, drv: &mut Driver) -> Outcome {
         book.sheets.push(xs);
     }
     book.substream_order = spec.order.clone();
-    let bytes = if spec.seed == 0 { book.to_bytes_plain(&mut rng) } else { book.to_bytes(&mut rng) };
+    let bytes = if spec.dual != 0 {
+        let wbs = book.workbook_stream(&mut rng);
+        let mut copy = book.clone();
+        for sh in &mut copy.sheets {
+            sh.cells.retain(|c| !matches!(&c.v, CellV::Raw(t, _) if *t == xlsw::MERGECELLS));
+        }
+        let decoy = copy.workbook_stream(&mut rng);
+        let mut opts = if spec.seed == 0 { verif_harness::cfbw::CfbOpts::default() } else { verif_harness::cfbw::CfbOpts::random(&mut rng) };
+        opts.dir_shuffle = false;
+        if wbs.len() >= 4096 || decoy.len() >= 4096 || wbs.is_empty() {
+            opts.sector_size = 512;
+        }
+        let streams: Vec<(String, Vec<u8>)> =
+            if spec.dual == 1 { vec![("Book".into(), decoy), ("Workbook".into(), wbs)] } else { vec![("Workbook".into(), wbs), ("Book".into(), decoy)] };
+        verif_harness::cfbw::write_cfb(&streams, &opts, &mut rng)
+    } else if spec.seed == 0 {
+        book.to_bytes_plain(&mut rng)
+    } else {
+        book.to_bytes(&mut rng)
+    };
     let wb: Xls<_> = match guarded(|| Xls::new(Cursor::new(bytes))) {
         Ok(Ok(w)) => w,
         Ok(Err(e)) => {
@@ -1705,7 +1729,8 @@ fn gen_xls(rng: &mut Rng) -> XlsSpec {
     } else {
         None
     };
-    XlsSpec { seed: if rng.chance(1, 6) { 0 } else { rng.next() | 1 }, sheets, order }
+    let dual = if rng.chance(1, 5) { rng.range(1, 2) as u8 } else { 0 };
+    XlsSpec { seed: if rng.chance(1, 6) { 0 } else { rng.next() | 1 }, sheets, order, dual }
 }
 
 // ------------------------------------------------------------------------------------------------
@@ -1858,6 +1883,11 @@ fn xls_candidates(s: &XlsSpec) -> Vec<XlsSpec> {
         c.order = None;
         v.push(c);
     }
+    if s.dual != 0 {
+        let mut c = s.clone();
+        c.dual = 0;
+        v.push(c);
+    }
     v
 }
 
@@ -1944,6 +1974,9 @@ fn corpus() -> Vec<String> {
         r#"xls {"seed":0,"sheets":[{"name":"S1","items":[{"C":[0,0,1]},{"M":[[0,0,1,1]]}]},{"name":"S2","items":[{"M":[[2,2,3,3],[4,4,4,5]]}]},{"name":"S3","items":[{"C":[1,1,5]},{"M":[[6,0,6,255]]}]}],"order":[2,0,1]}"#.into(),
         // seeded change C17-m14: a chart sheet before the worksheet: index n = the n-th sheet of sheet_names()
         r#"xls {"seed":0,"sheets":[{"name":"Chart1","items":[],"kind":2},{"name":"S1","items":[{"C":[0,0,1]},{"M":[[0,0,1,1]]}]},{"name":"Mod","items":[],"kind":6},{"name":"S2","items":[{"M":[[2,2,3,3]]}]}]}"#.into(),
+        // seeded change C17-m17: dual-format file: the `Book` copy (no MERGEDCELLS) before / after `Workbook`
+        r#"xls {"seed":0,"sheets":[{"name":"S1","items":[{"C":[0,0,1]},{"M":[[0,0,1,1],[3,3,4,4]]}]},{"name":"S2","items":[{"M":[[2,2,3,3]]}]}],"dual":1}"#.into(),
+        r#"xls {"seed":0,"sheets":[{"name":"S1","items":[{"C":[0,0,1]},{"M":[[0,0,1,1]]}]}],"dual":2}"#.into(),
         // xls: two records, regions at IV65536
         r#"xls {"seed":0,"sheets":[{"name":"S1","items":[{"C":[0,0,1]},{"M":[[0,0,1,1],[65535,255,65535,255]]},{"C":[2,2,2]},{"M":[[3,0,3,255]]}]},{"name":"S2","items":[{"M":[]}]}]}"#.into(),
     ];
@@ -1980,7 +2013,7 @@ fn main() {
          mergeCells count wrong or missing, extra attributes before/after a mergeCell ref; the other \
          CT_Worksheet children in schema order around sheetData/mergeCells, customSheetViews nesting \
          pageMargins/printOptions/pageSetup/headerFooter; every 40th file a table of 4096..~2^15 cells on a \
-         used range of the same width shifted by -2..2 columns) and xls (1-3 sheets, 0-3 MERGEDCELLS records of 0-1027 regions among the cell records, sheet substreams stored in tab order or permuted); \
+         used range of the same width shifted by -2..2 columns) and xls (1-3 sheets, 0-3 MERGEDCELLS records of 0-1027 regions among the cell records, sheet substreams stored in tab order or permuted, one file in five a dual-format container with a Book copy without MERGEDCELLS before/after Workbook); \
          oracle = the declared regions (count, order, corners, sheet) and for tables name, sheet, columns \
          and the sheet's values over ref minus header/totals rows; no expectation for malformed/reversed \
          refs, and for the geometry of insertRow tables; a table whose header/totals rows leave no \
